@@ -86,3 +86,10 @@ Theorem C11_refuted_stale_upgrade :
     verdict_of (authenticate kdf c2 d2 (str "u") (str "old")) = Some false.
 Proof. exact stale_upgrade_refuted. Qed.
 Print Assumptions C11_refuted_stale_upgrade.
+
+(* ---- the model's state space is the code's declared state ----
+   (theories/StateInst.v: package-level variables and struct fields listed by tools/facts on every
+   run; the models keep no state between operations other than these components) *)
+From Whawty Require StateInst.
+Theorem C11_agent_state_inventory : StateInst.agent_state_inventory.
+Proof. exact StateInst.agent_state_inventory_holds. Qed.
